@@ -31,7 +31,8 @@ func (eng) Rule() string {
 		"pq.cas-lost, pq.loop-exit, pq.released); (script) exact interleavings: the drainer is gated at pq.loop-exit (or pq.released) " +
 		"while a second goroutine appends and loses the CAS inside the release window (pq.cas-lost hit observed), then released; " +
 		"(lin) relation-free schemas, client-boundary history of Add1/Remove1/Tick per state checked with porcupine against a " +
-		"per-state tick model. Monitors: handler/eval single occupancy, tracer nesting, queue-tick order of appended mutations, " +
+		"per-state tick model; (dedup) 2-8 arg-less Add1/Remove1/CanAdd1/CanRemove1 issued from a handler that holds the queue or from " +
+		"another goroutine meanwhile, activity after the drain compared with the sequential application of the real mutations. Monitors: handler/eval single occupancy, tracer nesting, queue-tick order of appended mutations, " +
 		"exactly-once conservation of uids, stranded queue at quiescence (stable), WhenQueue(tick) closed for every processed tick " +
 		"(subscribed before and after processing). Evaluation = one issued op; distinct non-trivial = distinct (case, op) that was " +
 		"queued behind a running transition or raced the release window."
@@ -60,6 +61,13 @@ func (eng) Cases(seed uint64, tier string) []core.CaseDesc {
 	}
 	for i := 0; i < nl; i++ {
 		cs = append(cs, core.CaseDesc{ID: fmt.Sprintf("lin/%05d", i), Kind: "lin", Seed: seed*3000003 + uint64(i)})
+	}
+	nd := 200
+	if tier == "thorough" {
+		nd = 40000
+	}
+	for i := 0; i < nd; i++ {
+		cs = append(cs, core.CaseDesc{ID: fmt.Sprintf("dedup/%05d", i), Kind: "dedup", Seed: seed*4000003 + uint64(i)})
 	}
 	return cs
 }
@@ -779,8 +787,117 @@ func (eng) Run(c core.CaseDesc, tier string) *core.CaseResult {
 		runWqWindow(res, c)
 	case "lin":
 		runLin(res, c)
+	case "dedup":
+		runDedup(res, c)
 	}
 	return res
+}
+
+// runDedup: arg-less mutations (the only ones the queue may drop as
+// duplicates) and arg-less checks are issued while a handler holds the queue,
+// from the handler itself or from another goroutine. Whatever the queue drops,
+// none of the issued mutations may be lost in effect: on a relation-free
+// schema without vetoes the activity after the queue drained has to be the
+// one a sequential application of the real (non-check) mutations in issue
+// order gives.
+func runDedup(res *core.CaseResult, c core.CaseDesc) {
+	r := gen.NewRand(c.Seed, 47)
+	states := am.S{"A", "B", "C"}
+	m := am.New(context.Background(), am.Schema{"A": {}, "B": {}, "C": {}, "Hold": {}},
+		&am.Opts{Id: "c04dd", DontLogId: true, DontLogStackTrace: true, HandlerTimeout: 30 * time.Second})
+	defer m.Dispose()
+	type dop struct {
+		Kind  string `json:"kind"`
+		State string `json:"state"`
+		Res   string `json:"res"`
+	}
+	n := 2 + r.IntN(7)
+	ops := make([]dop, n)
+	for i := range ops {
+		ops[i] = dop{Kind: []string{"add", "remove", "canadd", "canremove", "add", "remove"}[r.IntN(6)], State: states[r.IntN(2+r.IntN(2))]}
+	}
+	// some states start active
+	want := map[string]bool{}
+	for _, st := range states {
+		if r.IntN(2) == 0 {
+			m.Add1(st, nil)
+			want[st] = true
+		}
+	}
+	start := fmt.Sprint(m.ActiveStates(nil))
+	fromHandler := r.IntN(2) == 0
+	issue := func() {
+		for i := range ops {
+			var rs am.Result
+			switch ops[i].Kind {
+			case "add":
+				rs = m.Add1(ops[i].State, nil)
+			case "remove":
+				rs = m.Remove1(ops[i].State, nil)
+			case "canadd":
+				rs = m.CanAdd1(ops[i].State, nil)
+			case "canremove":
+				rs = m.CanRemove1(ops[i].State, nil)
+			}
+			ops[i].Res = rec.ResStr(rs)
+		}
+	}
+	entered := make(chan struct{})
+	gate := make(chan struct{})
+	_, _ = m.HandlersBindMaps(nil, map[string]am.HandlerFinal{
+		"HoldState": func(e *am.Event) {
+			if fromHandler {
+				issue()
+			}
+			close(entered)
+			select {
+			case <-gate:
+			case <-time.After(20 * time.Second):
+			}
+		},
+	})
+	done := make(chan struct{})
+	go func() { m.Add1("Hold", nil); close(done) }()
+	select {
+	case <-entered:
+	case <-time.After(10 * time.Second):
+		res.Inconclusive = "the holding handler was not entered"
+		close(gate)
+		return
+	}
+	if !fromHandler {
+		issue()
+	}
+	close(gate)
+	<-done
+	if q := quiesce(m); q != "" {
+		res.Inconclusive = "no quiescence: " + q
+		return
+	}
+	for _, o := range ops {
+		switch o.Kind {
+		case "add":
+			want[o.State] = true
+		case "remove":
+			want[o.State] = false
+		}
+	}
+	res.Evals += int64(len(ops))
+	res.Count("argless_ops_issued_behind_a_held_queue", int64(len(ops)))
+	for _, o := range ops {
+		if o.Res == "Executed" && (o.Kind == "add" || o.Kind == "remove") {
+			res.Count("mutations_answered_without_queueing", 1)
+		}
+	}
+	for _, st := range states {
+		if m.Is1(st) != want[st] {
+			res.Violate("C04/lost-effect/argless-behind-held-queue", fmt.Sprintf(
+				"after the queue drained %s is active=%v, the issued mutations applied one after the other give active=%v (a mutation was dropped although no later queued mutation has its effect)",
+				st, m.Is1(st), want[st]), map[string]any{"start": start, "ops": ops, "issued_from_handler": fromHandler, "final": m.StringAll()})
+			break
+		}
+	}
+	res.Key(c.Seed, "dedup", n, fromHandler)
 }
 
 func main() { core.Main(eng{}) }
